@@ -21,7 +21,7 @@ import sys
 import tempfile
 from concurrent.futures import ThreadPoolExecutor
 
-REPO = '/repo'
+REPO = '/tmp/mut_clean'      # a clean export of /repo's HEAD (git archive), made by main()
 VERIF = os.path.dirname(os.path.abspath(__file__))
 JOBS = 16
 
@@ -270,6 +270,42 @@ def run_checks(muts):
             shutil.rmtree(d, ignore_errors=True)
 
 
+def run_neighbours(muts):
+    """for mutants nobody noticed so far: does the check of another property notice them?"""
+    dirs = queue.Queue()
+    made = []
+    for _ in range(JOBS):
+        base = tempfile.mkdtemp(prefix='mutant-')
+        shutil.copytree(os.path.join(REPO, 'frappy'), os.path.join(base, 'frappy'), ignore=shutil.ignore_patterns('__pycache__', 'gui'))
+        made.append(base)
+        dirs.put(base)
+
+    def one(m):
+        base = dirs.get()
+        target = os.path.join(base, m['file'])
+        orig = open(target, 'rb').read()
+        try:
+            open(target, 'wb').write(m['new'])
+            env = dict(os.environ, VERIF_REPO=base, VERIF_NO_EVIDENCE='1', VERIF_NO_SELFTEST='1', PYTHONDONTWRITEBYTECODE='1')
+            m['others'] = []
+            for i in range(1, 21):
+                q = f'C{i:02d}'
+                if q != m['prop']:
+                    c2 = subprocess.run(['/venv/bin/python', os.path.join(VERIF, 'check'), q], env=env, capture_output=True, text=True)
+                    if c2.returncode != 0:
+                        m['others'].append(q)
+        finally:
+            open(target, 'wb').write(orig)
+            dirs.put(base)
+        return m
+    try:
+        with ThreadPoolExecutor(max_workers=JOBS) as ex:
+            return list(ex.map(one, muts))
+    finally:
+        for d in made:
+            shutil.rmtree(d, ignore_errors=True)
+
+
 KNOWN_FAIL_FILE = os.path.join(VERIF, 'selftest', 'suite_known_failures.txt')
 
 
@@ -344,6 +380,9 @@ def main():
         else:
             props.append(a)
     os.makedirs(out, exist_ok=True)
+    shutil.rmtree(REPO, ignore_errors=True)
+    os.makedirs(REPO)
+    subprocess.run(f'git -C /repo archive HEAD | tar -x -C {REPO}', shell=True, check=True)
     for prop in props or [f'C{i:02d}' for i in range(1, 21)]:
         muts = gather(prop, ops)
         res = run_checks(muts)
@@ -354,6 +393,7 @@ def main():
         c1 = sum(m['rc'] == 1 for m in res)
         c2 = sum(m['rc'] == 2 for m in res)
         final = [m for m in surv if not suite or m.get('suite') == 'pass']
+        run_neighbours(final)
         print(f'{prop}: {n} mutants, caught {c1}, analysis-error {c2}, survived check {len(surv)}' +
               (f', survived check and suite {len(final)}' if suite else ''))
         for m in res:
@@ -365,7 +405,7 @@ def main():
                 if m['func'] != last:
                     f.write(f"\n== {m['func']}  ({m['file']})\n")
                     last = m['func']
-                f.write(f"  {m['line']:5d} {m['op']:6s} {m['desc']}\n")
+                f.write(f"  {m['line']:5d} {m['op']:6s} {m['desc']}" + (f"    [noticed by {','.join(m['others'])}]" if m.get('others') else '') + "\n")
 
 
 if __name__ == '__main__':
